@@ -34,6 +34,7 @@ def dispatch (line : String) : String :=
   | "netparse" :: rest => (handleNetParse rest).getD "BAD-CASE\t0"
   | "proc" :: rest => (handleProc rest).getD "BAD-CASE\t0"
   | "fill" :: rest => (handleFill rest).getD "BAD-CASE\t0"
+  | "livechain" :: rest => (handleLiveChain rest).getD "BAD-CASE\t0"
   | "live" :: rest => (handleLive rest).getD "BAD-CASE\t0"
   | "iface" :: rest => (handleIface rest).getD "BAD-CASE\t0"
   | "bpfr" :: rest => (handleBpfr rest).getD "BAD-CASE\t0"
@@ -60,6 +61,7 @@ def dispatch (line : String) : String :=
   | "limconc" :: rest => (handleLimConc rest).getD "BAD-CASE\t0"
   | "limwrap" :: rest => (handleLimWrap rest).getD "BAD-CASE\t0"
   | "limwire" :: rest => (Driver.E2E.handleLimWire rest).getD "BAD-CASE\t0"
+  | "e2earp" :: rest => (Driver.E2E.handleE2EArp rest).getD "BAD-CASE\t0"
   | "e2edelay" :: rest => (Driver.E2E.handleE2EDelay rest).getD "BAD-CASE\t0"
   | "limrt" :: rest => (handleLimRT rest).getD "BAD-CASE\t0"
   | "engine" :: rest => (handleEngine rest).getD "BAD-CASE\t0"
